@@ -4,10 +4,10 @@ pub open spec fn psize<T: Types>() -> spec_fn(T::LogPayload) -> nat { |p: T::Log
 //@struct src/raft_log/state_machine/payload_cache.rs PayloadCache allpub
 
 impl<T: Types> PayloadCache<T> {
+    /// by how much the byte counter exceeds the sum of the payload sizes actually resident (0 = exact accounting)
+    pub open spec fn slack(&self) -> int { self.size as int - map_sum(self.cache@, psize::<T>()) as int }
     /// Inv_Cache: the byte counter equals the sum of the payload sizes actually resident
-    pub open spec fn inv(&self) -> bool {
-        &&& self.size as nat == map_sum(self.cache@, psize::<T>())
-    }
+    pub open spec fn inv(&self) -> bool { self.slack() == 0 }
     pub open spec fn frame(&self, o: &Self) -> bool {
         self.max_items == o.max_items && self.capacity == o.capacity && self.last_evictable == o.last_evictable
     }
